@@ -411,6 +411,7 @@ def run(ctx):
         "mutates `jobs` on every path in the matching direction (E2), Activity.job is never assigned or mutably borrowed after construction "
         "anywhere in the workspace (E3), the registry's available sets are mutated only by use_actor(remove)/free_actor(insert) whose boolean "
         "results are propagated and get_route is gated on use_actor (R1), deep copies share only immutable Arc data (D1, type-level).")
+    ctx.explanation += ' Job identity (J1): has_same_job decides through Job equality on the root job; Job::eq / hash are payload pointer identity per variant.'
     ctx.not_decided = "depot ends in place, leg enumeration, counts (value-level index arithmetic); reference-model equivalence along histories."
     ctx.assumptions += ["safe Rust: an owned value built from &self can only clone", "std HashSet/Vec contracts"]
     ctx.run("C14-E1", "representation fields of Tour / Registry / RegistryContext are private", e1_privacy, floor=8)
